@@ -3,6 +3,7 @@ package main
 // Calls: contracts at call sites, inlining, intrinsics, havoc.
 
 import (
+	"sort"
 	"fmt"
 	"go/types"
 	"strings"
@@ -48,6 +49,20 @@ func (x *Exec) doCall(fr *Frame, st *State, in ssa.Instruction, c *ssa.CallCommo
 		recv := x.operand(fr, st, c.Value)
 		for _, a := range c.Args {
 			args = append(args, x.operand(fr, st, a))
+		}
+		if fr.isRoot && x.rootC != nil && x.rootC.Attrs["trackcalls"] != "" {
+			// interface method calls made by the function under verification are call events too:
+			// called("Iface.Method") / callres / callarg (the receiver is not an argument)
+			key := x.ifaceMethodKey(c)
+			short := key[strings.LastIndex(key, "/")+1:]
+			orig := ret
+			sig := c.Signature()
+			rt := x.resultType(c)
+			argsCopy := append([]Value(nil), args...)
+			ret = func(f *Frame, s *State, res Value) {
+				s.ghost["$call:"+short] = &callRecord{args: argsCopy, res: res, sig: sig, rt: rt}
+				orig(f, s, res)
+			}
 		}
 		x.invoke(fr, st, c, recv.(*IfaceV), args, ret, k)
 		return
@@ -222,6 +237,14 @@ func (x *Exec) freshResult(st *State, t types.Type, hint string) Value {
 	if t == nil {
 		return nil
 	}
+	// see applyContractDesc: memory the callee allocated precedes every later allocation of the caller
+	x.allocCount++
+	v := x.freshResult1(st, t, hint)
+	x.boundValueRefs(st, v)
+	return v
+}
+
+func (x *Exec) freshResult1(st *State, t types.Type, hint string) Value {
 	if tup, ok := t.(*types.Tuple); ok {
 		tv := &TupleV{}
 		for i := 0; i < tup.Len(); i++ {
@@ -433,6 +456,10 @@ func (x *Exec) applyContractDesc(fr *Frame, st *State, d *calleeDesc, con *FuncC
 	}
 	// frame
 	x.havocFrame(fr, st, con, env)
+	// whatever the callee allocated exists from now on: it can never coincide with an object the
+	// caller allocates later. One allocation number is reserved for all of it, and every reference
+	// in the results is bounded by it.
+	x.allocCount++
 	// results
 	rs := d.results
 	var results []Value
@@ -451,6 +478,7 @@ func (x *Exec) applyContractDesc(fr *Frame, st *State, d *calleeDesc, con *FuncC
 			v = x.functionalResultDesc(st, d, i, args)
 		} else {
 			v = x.freshValue(st, rs.At(i).Type(), "ret."+d.name+"."+rn)
+			x.boundValueRefs(st, v)
 		}
 		results = append(results, v)
 		post.bind(rn, TV{v, rs.At(i).Type()})
@@ -516,6 +544,33 @@ func (x *Exec) havocFrame(fr *Frame, st *State, con *FuncContract, env *SpecEnv)
 	}
 }
 
+// allFieldArray recognises the assigns form all(T).f and returns the name of the field's heap array.
+func (x *Exec) allFieldArray(env *SpecEnv, item string) (string, bool) {
+	if !strings.HasPrefix(item, "all(") {
+		return "", false
+	}
+	i := strings.Index(item, ").")
+	if i < 0 {
+		unsupported("assigns: all(T).field expected, got %s", item)
+	}
+	tn, fn := strings.TrimSpace(item[4:i]), strings.TrimSpace(item[i+2:])
+	t := x.P.LookupType(env.typesPkg(), tn)
+	if t == nil {
+		unsupported("assigns: unknown type %s", tn)
+	}
+	us, ok := t.Underlying().(*types.Struct)
+	if !ok {
+		unsupported("assigns: %s is not a struct type", tn)
+	}
+	for k := 0; k < us.NumFields(); k++ {
+		if us.Field(k).Name() == fn {
+			return fieldPrefix(structKey(t), fn), true
+		}
+	}
+	unsupported("assigns: %s has no field %s", tn, fn)
+	return "", false
+}
+
 func splitTop(s string, sep byte) []string {
 	var out []string
 	depth := 0
@@ -539,6 +594,20 @@ func splitTop(s string, sep byte) []string {
 
 // havocLocation havocs one assignable location: x.f | *p | s[*] | val(b) | m[*]
 func (x *Exec) havocLocation(st *State, env *SpecEnv, item string) {
+	if n, ok := x.allFieldArray(env, item); ok {
+		// all(T).f: field f of every object of type T
+		var names []string
+		for hn := range st.heap {
+			if hn == n || strings.HasPrefix(hn, n+".") {
+				names = append(names, hn)
+			}
+		}
+		sort.Strings(names)
+		for _, hn := range names {
+			x.heapHavoc(st, hn)
+		}
+		return
+	}
 	if strings.HasSuffix(item, "[*]") {
 		e, err := ParseExpr(strings.TrimSuffix(item, "[*]"))
 		if err != nil {
@@ -653,6 +722,15 @@ func (x *Exec) checkFrame(fr *Frame, con *FuncContract, env *SpecEnv, st, pre *S
 	for _, c := range assigns {
 		for _, item := range splitTop(c.Text, ',') {
 			item = strings.TrimSpace(item)
+			if n, ok := x.allFieldArray(penv, item); ok {
+				get(n).any = true
+				for hn := range st.heap {
+					if strings.HasPrefix(hn, n+".") {
+						get(hn).any = true
+					}
+				}
+				continue
+			}
 			switch {
 			case item == "" || item == "nothing":
 			case item == "heap" || item == "everything":
@@ -849,17 +927,21 @@ func (x *Exec) checkEvent(fr *Frame, st *State, kind string, ch ssa.Value, v Val
 	}
 	tgt := x.describeFuncSource(ch)
 	for _, cl := range x.rootC.Clauses {
-		if cl.Kind != "callback" || !strings.HasPrefix(cl.Name, "send:") || !matchTarget(cl.Name[5:], tgt) {
+		if cl.Kind != "callback" || !strings.HasPrefix(cl.Name, kind+":") || !matchTarget(cl.Name[len(kind)+1:], tgt) {
 			continue
 		}
 		env := x.newSpecEnv(fr, st, x.rootPre)
 		x.bindRootParams(env)
 		x.bindFrameNames(env, fr)
-		env.bind("arg0", TV{v, t})
+		if v != nil {
+			env.bind("arg0", TV{v, t})
+		}
 		g := x.specBool(env, cl.E)
 		x.emit(st, "callback", fmt.Sprintf("%s:%s", cl.Name, cl.Label), g, false, cl.Line)
 	}
-	st.ghost["$sent:"+tgt] = TTrue
+	if kind == "send" {
+		st.ghost["$sent:"+tgt] = TTrue
+	}
 }
 
 func (x *Exec) addInput(m ModelVar) {
